@@ -122,11 +122,19 @@ TReject ==
 
 \* update_pilots + _store_actual_charging_rates + post_charging_update (+ iteration += 1)
 Slack == t + 2      \* logged energies are rounded per period: they may drift by 1/2 per period
+\* The envelope as a *logged* execution can satisfy it: the specification's charge is the sum of the
+\* rounded per-period energies, so the free capacity it computes may be off by the accumulated
+\* rounding (found by a false alarm: 25772 + 7227 = 32999 logged as 32998.4 -> 32998, then E = 312
+\* against a computed free capacity of 311).  A vacant station delivers exactly nothing.
+\* ... and the specification's own state takes the logged energy cut back to its envelope, so that its
+\* invariants (charge <= capacity, rate <= pilot) are evaluated on a state it can itself reach.
+Clamp(E) == [s \in Stations |-> Min2(E[s], IdealE[s])]
+EnvelopeT(E) == \A s \in Stations : 0 <= E[s] /\ E[s] <= IdealE[s] + (IF occ[s] = 0 THEN 0 ELSE Slack)
 TApply ==
     /\ IsEvent("apply") /\ pc = "Apply"
     /\ LET E == [s \in Stations |-> Ev.E[s]] IN
-       /\ IF ideal THEN E = IdealE ELSE Envelope(E)
-       /\ ApplyWith(E)
+       /\ IF ideal THEN E = IdealE ELSE EnvelopeT(E)
+       /\ ApplyWith(IF ideal THEN E ELSE Clamp(E))
     /\ bad' = FirstBad(<<
           <<"apply.t", Ev.t = t>>,
           <<"apply.occ", Ev.occ = occ>>,
@@ -144,7 +152,7 @@ TApply ==
 \* an apply line whose energies are outside what the action admits: name that clause
 TApplyOutside ==
     /\ IsEvent("apply") /\ pc = "Apply"
-    /\ LET E == [s \in Stations |-> Ev.E[s]] IN ~(IF ideal THEN E = IdealE ELSE Envelope(E))
+    /\ LET E == [s \in Stations |-> Ev.E[s]] IN ~(IF ideal THEN E = IdealE ELSE EnvelopeT(E))
     /\ bad' = IF ideal THEN "apply.E (energy delivered differs from the ideal battery law)"
               ELSE "apply.E (energy outside the physical envelope 0 <= E <= min(pilot*V*T, Pmax*T, free capacity))"
     /\ UNCHANGED vars
